@@ -345,7 +345,7 @@ def replay(w):
         return None
     if kind == 'child':
         here = hash_of(w['spec'], 'v0')
-        (tag, text), = child_hashes([w['spec']], [w['route']], w['seed'])[0:1][0]
+        tag, text = child_hashes([w['spec']], [w['route']], w['seed'])[0][0]
         if here[0] == 'ok' and tag == 'ok' and text == here[1].hex():
             return None
         return 'nutils_hash of {}: {} here, {} {} in a child interpreter with PYTHONHASHSEED={} (route {})'.format(
